@@ -268,6 +268,46 @@ var c07Ops = []corruption{
 		}
 		return resp, true
 	}},
+	{"item-change-block-hash", func(resp any, pos, arg int) (any, bool) {
+		// every log / receipt / trace of one block names another block hash (answered from
+		// another fork), or none (null / missing / shortened: a proxy that strips the field)
+		_, list, ok := findList(resp, pos)
+		if !ok || len(list) == 0 {
+			return resp, false
+		}
+		first, ok := asObj(list[arg%len(list)])
+		if !ok || first["blockNumber"] == nil || first["blockHash"] == nil {
+			return resp, false
+		}
+		bn := first["blockNumber"]
+		set := func(m map[string]any) {
+			switch (arg / 7) % 4 {
+			case 0:
+				m["blockHash"] = "0x" + strings.Repeat("ee", 32)
+			case 1:
+				m["blockHash"] = nil
+			case 2:
+				delete(m, "blockHash")
+			default:
+				m["blockHash"] = "0x" + strings.Repeat("ee", 16)
+			}
+		}
+		for _, x := range list {
+			it, ok := asObj(x)
+			if !ok || it["blockNumber"] != bn {
+				continue
+			}
+			set(it)
+			if ls, ok := asArr(it["logs"]); ok {
+				for _, l := range ls {
+					if lm, ok := asObj(l); ok {
+						set(lm)
+					}
+				}
+			}
+		}
+		return resp, true
+	}},
 	{"item-change-tx-index", func(resp any, pos, arg int) (any, bool) {
 		_, list, ok := findList(resp, pos)
 		if !ok || len(list) == 0 {
@@ -336,6 +376,8 @@ type servedSet struct {
 	logs       []servedLog
 	receipts   []map[string]any
 	traces     []map[string]any
+	lagging    bool                // a request was answered by a replica that lacks blocks of the range
+	itemHashes map[uint64][]string // block number -> blockHash of every served log / receipt / trace ("" = none)
 	wrongBlock bool // a receipts/traces response answers for another block than asked, or mixes blocks
 	transport  bool
 }
@@ -400,12 +442,14 @@ func collectServed(ss *servedSet, ri sim.ReqInfo, resp any, start, limit uint64)
 			list, _ := asArr(res)
 			for _, x := range list {
 				ss.logs = append(ss.logs, parseLog(x))
+				ss.noteHash(x)
 			}
 		case "receipts":
 			list, _ := asArr(res)
 			for j, x := range list {
 				r, _ := asObj(x)
 				ss.receipts = append(ss.receipts, r)
+				ss.noteHash(x)
 				// (a reordered batch is still attached by the block each receipt names: allowed)
 				bn := pu(r["blockNumber"])
 				if bn < start || bn >= start+limit || (j > 0 && bn != pu(list[0].(map[string]any)["blockNumber"])) {
@@ -421,6 +465,7 @@ func collectServed(ss *servedSet, ri sim.ReqInfo, resp any, start, limit uint64)
 			for j, x := range list {
 				r, _ := asObj(x)
 				ss.traces = append(ss.traces, r)
+				ss.noteHash(x)
 				bn := pu(r["blockNumber"])
 				if bn < start || bn >= start+limit || (j > 0 && bn != pu(list[0].(map[string]any)["blockNumber"])) {
 					ss.wrongBlock = true
@@ -431,6 +476,19 @@ func collectServed(ss *servedSet, ri sim.ReqInfo, resp any, start, limit uint64)
 			}
 		}
 	}
+}
+
+func (ss *servedSet) noteHash(x any) {
+	m, ok := asObj(x)
+	if !ok {
+		return
+	}
+	if ss.itemHashes == nil {
+		ss.itemHashes = map[uint64][]string{}
+	}
+	h, _ := m["blockHash"].(string)
+	bn := pu(m["blockNumber"])
+	ss.itemHashes[bn] = append(ss.itemHashes[bn], h)
 }
 
 func parseLog(x any) servedLog {
@@ -461,6 +519,8 @@ func c07Judge(ss *servedSet, f *glf.Filter, start, limit uint64, blocks []eth.Bl
 		must = "a response element carries an error member"
 	case ss.nullResult:
 		must = "a result is null / missing"
+	case ss.lagging:
+		must = "a request was answered by a replica that does not have the whole range yet (missing results)"
 	case ss.shortBatch:
 		must = "a batch response has fewer elements than requests"
 	case ss.wrongBlock:
@@ -484,6 +544,26 @@ func c07Judge(ss *servedSet, f *glf.Filter, start, limit uint64, blocks []eth.Bl
 			prev, cur := ss.blocks[ss.blockOrder[i-1]], ss.blocks[ss.blockOrder[i]]
 			if prev != nil && cur != nil && cur["parentHash"] != prev["hash"] {
 				must = fmt.Sprintf("block %d does not link to the hash served for block %d", ss.blockOrder[i], ss.blockOrder[i-1])
+			}
+		}
+	}
+	if must == "" && (f.UseHeaders || f.UseBlocks) {
+		// every log / receipt / trace served for a block names (by a full hash) another
+		// block than the one served under that number: attaching them would put data on
+		// a block it does not name
+		for n, hs := range ss.itemHashes {
+			sb := ss.blocks[n]
+			if sb == nil || !inRange(n) {
+				continue
+			}
+			all := len(hs) > 0
+			for _, h := range hs {
+				if len(h) != 66 || strings.EqualFold(h, fmt.Sprint(sb["hash"])) {
+					all = false
+				}
+			}
+			if all {
+				must = fmt.Sprintf("everything served for block %d names block hash %s, the block was served with hash %v", n, hs[0], sb["hash"])
 			}
 		}
 	}
@@ -629,7 +709,7 @@ func c07Judge(ss *servedSet, f *glf.Filter, start, limit uint64, blocks []eth.Bl
 
 type c07Mut struct {
 	req int // which HTTP request of the Get (0-based)
-	op  int // index into c07Ops, or -1..-4 for transport faults
+	op  int // index into c07Ops, or -1..-4 for transport faults, -5 for a lagging replica
 	pos int
 	arg int
 }
@@ -641,12 +721,14 @@ func c07Run(plan string, start, limit uint64, muts []c07Mut) (viol string, appli
 	ss := &servedSet{blocks: map[uint64]map[string]any{}}
 	var mu sync.Mutex
 	reqN := 0
+	var lagged []*sim.Fault
 	node.OnRequest = func(n *sim.Node, ri sim.ReqInfo) *sim.Fault {
 		mu.Lock()
 		defer mu.Unlock()
 		i := reqN
 		reqN++
 		f := &sim.Fault{}
+		lagDesc := ""
 		var mine []c07Mut
 		for _, m := range muts {
 			if m.req == i {
@@ -682,6 +764,22 @@ func c07Run(plan string, start, limit uint64, muts []c07Mut) (viol string, appli
 			return resp
 		}
 		for _, m := range mine {
+			if m.op == -5 {
+				// the request is answered by a replica whose head is the end of the range minus 0..2
+				end, head := start+limit-1, n.Chain.Head().Num
+				behind := uint64(m.arg % 3)
+				if behind >= end {
+					continue
+				}
+				f.Lag = int(head - (end - behind))
+				lagDesc = fmt.Sprintf("replica-head=%d@req%d(%s)", end-behind, i, ri.Kind)
+			}
+		}
+		if f.Lag > 0 {
+			applied = append(applied, lagDesc)
+			lagged = append(lagged, f)
+		}
+		for _, m := range mine {
 			if m.op == -4 {
 				f.Truncate = 1 + m.arg
 				ss.transport = true // (unless the cut happens to leave valid JSON, checked below)
@@ -711,6 +809,11 @@ func c07Run(plan string, start, limit uint64, muts []c07Mut) (viol string, appli
 		ss.transport = false
 	}
 	parsedOK = !ss.transport
+	for _, f := range lagged {
+		if f.LagHit {
+			ss.lagging = true
+		}
+	}
 	if v := c07Judge(ss, filter, start, limit, blocks, err); v != "" {
 		return v, applied, parsedOK, reqN
 	}
@@ -736,7 +839,7 @@ func TestC07_SingleOperator(t *testing.T) {
 				t.Fatalf("VERIF-VIOLATION property=C07 plan=%s start=%d limit=%d uncorrupted: %s", plan, start, limit, v)
 			}
 			for req := 0; req < nreq; req++ {
-				for op := -4; op < len(c07Ops); op++ {
+				for op := -5; op < len(c07Ops); op++ {
 					npos, nargs := int(limit)+1, 4
 					if op < 0 {
 						npos, nargs = 1, 3
@@ -783,7 +886,7 @@ func TestC07_Combined(t *testing.T) {
 		k := rapid.IntRange(1, 3).Draw(rt, "nops")
 		var muts []c07Mut
 		for i := 0; i < k; i++ {
-			muts = append(muts, c07Mut{req: rapid.IntRange(0, 7).Draw(rt, "req"), op: rapid.IntRange(-4, len(c07Ops)-1).Draw(rt, "op"), pos: rapid.IntRange(0, 6).Draw(rt, "pos"), arg: rapid.IntRange(0, 400).Draw(rt, "arg")})
+			muts = append(muts, c07Mut{req: rapid.IntRange(0, 7).Draw(rt, "req"), op: rapid.IntRange(-5, len(c07Ops)-1).Draw(rt, "op"), pos: rapid.IntRange(0, 6).Draw(rt, "pos"), arg: rapid.IntRange(0, 400).Draw(rt, "arg")})
 		}
 		v, applied, parsed, _ := c07Run(plan, start, limit, muts)
 		desc := fmt.Sprintf("plan=%s start=%d limit=%d %v", plan, start, limit, applied)
